@@ -160,6 +160,47 @@ VDist3(r) ==
   ELSE OK
 
 \* ---------------------------------------------------------------- C20
+\* The pending intervals of Douglas-Peucker as a state machine (trace validation of the verif hook: one event
+\* <<start, end, maxIndex, ...>> per processed interval).  Each event must be a step the specification allows:
+\* if the largest exact distance of an interior point exceeds the threshold the interval is split at A farthest
+\* point (ties may be broken either way), if it is smaller the interval is dropped, if it is exactly equal either
+\* is allowed (float rounding); at the end nothing is pending and the retained points are exactly the result.
+RGt(p, q) == p[1] * q[2] > q[1] * p[2]
+REq(p, q) == p[1] * q[2] = q[1] * p[2]
+\* The order in which pending intervals are processed and the representation of the stack are NOT prescribed (a
+\* refactoring to recursion or to left-first order must not raise an alarm): the logged interval must be SOME pending
+\* interval; it counts as split when its logged farthest point is one of the returned indexes.
+RECURSIVE RdpRun(_, _, _, _, _, _, _)
+RdpRun(P, T2, pending, kept, evs, k, Idx) ==
+  IF k > Len(evs) THEN [why |-> IF pending = {} THEN "ok" ELSE "intervals-left-unprocessed", kept |-> kept]
+  ELSE
+    LET ev == evs[k]  s == ev[1]  e == ev[2]
+        inner == {i \in (s + 1)..(e - 1) : TRUE}
+        \* all distances of one interval over the common denominator l2 (the squared chord length; 1 for a zero-length
+        \* chord), so that they are compared without cross-multiplying (32-bit integers)
+        l2 == LET c == Dot2(Sub2(P[e + 1], P[s + 1]), Sub2(P[e + 1], P[s + 1])) IN IF c = 0 THEN 1 ELSE c
+        N(i) == LET d == SqDistPtSeg2(P[i + 1], P[s + 1], P[e + 1]) IN IF d[2] = 1 THEN d[1] * l2 ELSE d[1]
+        far == {i \in inner : \A j \in inner : N(j) <= N(i)}
+        split == ev[3] \in Idx /\ s < ev[3] /\ ev[3] < e IN
+    IF <<s, e>> \notin pending THEN [why |-> "interval-was-not-pending", kept |-> kept]
+    ELSE IF inner = {} THEN RdpRun(P, T2, pending \ {<<s, e>>}, kept, evs, k + 1, Idx)
+    ELSE LET M == <<N(CHOOSE i \in far : TRUE), l2>> IN
+         IF split
+         THEN IF ~(RGt(M, T2) \/ REq(M, T2)) THEN [why |-> "split-below-threshold", kept |-> kept]
+              ELSE IF ev[3] \notin far THEN [why |-> "split-not-at-a-farthest-point", kept |-> kept]
+              ELSE RdpRun(P, T2, (pending \ {<<s, e>>}) \cup {<<s, ev[3]>>, <<ev[3], e>>}, kept \cup {ev[3]}, evs, k + 1, Idx)
+         ELSE IF RGt(M, T2) THEN [why |-> "interval-dropped-although-a-point-exceeds-the-threshold", kept |-> kept]
+              ELSE RdpRun(P, T2, pending \ {<<s, e>>}, kept, evs, k + 1, Idx)
+SmallCoords(P) == \A i \in DOMAIN P : P[i][1] <= 40 /\ P[i][2] <= 40       \* keeps every product within 32 bits
+TraceWhy(r, T2n, T2d) ==
+  LET P == r.case.pts  n == Len(P) IN
+  \* no events at all: the code path does not go through the instrumented loop (trivial input, or a refactoring that
+  \* bypasses it); the property is then decided by ValidSimplification alone - never an alarm
+  IF r.dp = <<>> THEN "ok"
+  ELSE IF n < 3 THEN "events-for-a-trivial-input"
+  ELSE LET res == RdpRun(P, <<T2n, T2d>>, {<<0, n - 1>>}, {0, n - 1}, r.dp, 1, {r.idx[k] : k \in DOMAIN r.idx}) IN
+       IF res.why # "ok" THEN res.why
+       ELSE IF {r.idx[k] : k \in DOMAIN r.idx} # res.kept THEN "result-is-not-the-retained-set" ELSE "ok"
 VRdp(r) ==
   LET T2n == r.case.thr[1] * r.case.thr[1]  T2d == r.case.thr[2] * r.case.thr[2] IN
   IF r.ev # "ok" THEN Bad("rdp|panic", 0)
@@ -168,6 +209,7 @@ VRdp(r) ==
   ELSE IF ~ValidSimplification(r.case.pts, T2n, T2d, r.idx) THEN
          Bad("rdp|invalid|" \o (IF T2n = 0 THEN "thr=0" ELSE "thr>0"), 1)
   ELSE IF r.idx2 # [k \in DOMAIN r.idx |-> k - 1] THEN Bad("rdp|not-a-fixed-point", 2)
+  ELSE IF Len(r.dp) < 5000 /\ SmallCoords(r.case.pts) /\ TraceWhy(r, T2n, T2d) # "ok" THEN Bad("rdp|trace|" \o TraceWhy(r, T2n, T2d), 3)
   ELSE OK
 
 Verdict(r) ==
